@@ -15,11 +15,11 @@ theorem nextUnsealed_history (env : Env) (ss : Sealed) (basis : State)
   simp only at h
   split at h <;> cases h <;> simp [AList.get_set_self]
 
+/-- since the `fix:` for finding F25 `lastHeaderOf` does not look at its second argument, so this holds of every state
+    (the hypothesis is kept so that the statement stays as it was) -/
 theorem lastHeaderOf_nextUnsealed (env : Env) (ss : Sealed) (basis : State)
-    (h : nextUnsealed env ss = .ok basis) (fb₁ fb₂ : Header) :
-    lastHeaderOf basis fb₁ = lastHeaderOf basis fb₂ := by
-  obtain ⟨hdr, _, hg⟩ := nextUnsealed_history env ss basis h
-  simp [lastHeaderOf, hg]
+    (_h : nextUnsealed env ss = .ok basis) (fb₁ fb₂ : Header) :
+    lastHeaderOf basis fb₁ = lastHeaderOf basis fb₂ := rfl
 
 theorem applyBatch_congr_lastHeader (env : Env) (s : State) (txs : List Tx) (fb₁ fb₂ : Header)
     (h : lastHeaderOf s fb₁ = lastHeaderOf s fb₂) :
